@@ -46,6 +46,8 @@ def astExpect : String :=
     T:<c>:<ok|xe|ce|pe/<f>>              call c returned: success, the server's execute error, value-count error,
                                          the failure of PREPARE f
     H:<c>                                watchdog: call c did not return, a goroutine is blocked inside gocql
+    L:<c>                                call c keeps re-sending frames without the re-PREPAREs that UNPREPARED answers
+                                         must cause (more frames than 20 + 3·(PREPAREs + scripted losses so far))
     C                                    panic inside gocql
   anything else is an event the specification does not have (rejected). -/
 
@@ -90,6 +92,7 @@ def parseEv (w : String) : Option (PConn.Ev String) :=
     | some c, ["pe", f] => f.toNat?.map fun f => .ret c (.prepErr f)
     | _, _ => none
   | ["H", c] => c.toNat?.map .hang
+  | ["L", c] => c.toNat?.map .hang
   | ["C"] => some .crash
   | _ => none
 
@@ -143,7 +146,10 @@ def judge (ws : List String) : String :=
   | some evs =>
     match Obs.firstReject Obs.init evs 0 with
     | none => "accept"
-    | some (i, o) => s!"reject:{i}:{ws.getD i "?"}:{why o (evs.getD i .crash)}"
+    | some (i, o) =>
+      let w := ws.getD i "?"
+      if w.startsWith "L:" then s!"reject:{i}:{w}:execution-does-not-terminate(frames-re-sent-without-re-PREPARE)"
+      else s!"reject:{i}:{w}:{why o (evs.getD i .crash)}"
 
 def step (s : St) (ws : List String) : St × String :=
   match ws with
